@@ -1091,6 +1091,59 @@ def _binders(src, lo, hi):
     return out
 
 
+def arm_level_tail_continues(src, fn_ob, fn_cb, p0, ob, cb, what):
+    """R11c (added for seed C20e; used by R11 and R30): the `continue` tokens at ARM level of the arm
+    block (ob, cb) whose pattern starts at p0 — those not inside a loop nested in the arm.  Such a
+    `continue` means "this arm is finished, next round of the dispatch loop" PROVIDED the `match` is the
+    last statement of the body of the innermost enclosing loop: then it is what falling out of the arm
+    does.  Checked (else UNDECIDED): no label; the innermost block around the arm is the block of a
+    `match` that starts a statement; the innermost block around that statement is the body of a loop;
+    nothing but an optional `;` follows the match there.  Returns the sorted token indices."""
+    inner = loops_in(src, ob + 1, cb)
+    conts = [q for q in range(ob + 1, cb) if src.t(q).kind == 'ident' and src.s(q) == 'continue'
+             and not any(lp[2] < q < lp[3] for lp in inner)]
+    if not conts:
+        return []
+    for q in conts:
+        if src.s(q + 1) not in (';', '}', ','):
+            raise Undecided('unsupported-construct', 'R11c: labelled `continue` in %s' % what)
+
+    def enclosing_open(k):
+        while k > fn_ob:
+            s = src.s(k)
+            if s in rscan.CLOSE:
+                k = src.match[k] - 1
+                continue
+            if s in rscan.OPEN:
+                return k
+            k -= 1
+        return fn_ob
+    mo = enclosing_open(p0 - 1)
+    mk = None
+    k = mo - 1
+    while k > fn_ob:
+        s = src.s(k)
+        if s in rscan.CLOSE:
+            k = src.match[k] - 1
+            continue
+        if s in rscan.OPEN or s == ';':
+            break
+        if s == 'match' and src.t(k).kind == 'ident':
+            mk = k
+            break
+        k -= 1
+    if src.s(mo) != '{' or mk is None or src.s(mk - 1) not in ('{', ';', '}'):
+        raise Undecided('unsupported-construct', 'R11c: `continue` in %s: the arm does not belong to a `match` statement' % what)
+    eo = enclosing_open(mk - 1)
+    lp = [l for l in loops_in(src, fn_ob + 1, fn_cb) if l[2] == eo]
+    t = src.match[mo] + 1
+    if src.s(t) == ';':
+        t += 1
+    if src.s(eo) != '{' or not lp or t != src.match[eo]:
+        raise Undecided('unsupported-construct', 'R11c: `continue` in %s: the `match` is not the last statement of the enclosing loop body' % what)
+    return conts
+
+
 class ArmText:
     """R11 arm-to-function: one `match` arm of a function, located by its pattern token sequence,
     cut into a generated `fn <name>(<params>) <arm block>`.  The arm block is the verbatim text;
@@ -1321,12 +1374,19 @@ class ArmText:
         hdr = 'fn %s(%s) ' % (name, ' '.join(params.split()))
         if ret is not None:
             hdr = 'fn %s(%s) -> %s ' % (name, ' '.join(params.split()), ' '.join(ret.split()))
+        # R11c: a `continue` at arm level of a match that ends the body of the dispatch loop means "this
+        # arm is finished": in the generated function it is `return` (guards: arm_level_tail_continues)
+        arm_txt = src.text[a:b]
+        r11c = [] if (expr_arm or ret is not None) else arm_level_tail_continues(
+            src, it.open_si, src.match[it.open_si], p0, ob, cb, 'arm %r of %s' % (pattern, selector))
+        for q in sorted(r11c, reverse=True):
+            arm_txt = arm_txt[:src.t(q).pos - a] + 'return' + arm_txt[src.t(q).end - a:]
         if expr_arm:
-            self.orig = hdr + '{ ' + src.text[a:b] + ' }'
+            self.orig = hdr + '{ ' + arm_txt + ' }'
         elif selfalias:
-            self.orig = hdr + '{ let ' + selfalias + ' = self; ' + src.text[a:b] + ' }'   # R11y
+            self.orig = hdr + '{ let ' + selfalias + ' = self; ' + arm_txt + ' }'   # R11y
         else:
-            self.orig = hdr + src.text[a:b]
+            self.orig = hdr + arm_txt
         self.orig_plain = hdr + src.text[a:b]
         self.first_line = src.line_of(a)
         self.last_line = src.line_of(b)
@@ -1335,6 +1395,232 @@ class ArmText:
         self.fired = [('R11', self.arm_first_line, 'match arm `%s` of %s cut into `%s`' % (' '.join(ptoks), selector, hdr.strip()))]
         if selfalias:
             self.fired.append(('R11y', self.arm_first_line, 'local `%s` of %s is an alias of self: `let %s = self;` prepended' % (selfalias, selector, selfalias)))
+        for q in r11c:
+            self.fired.append(('R11c', src.line_of(src.t(q).pos), '`continue` at arm level (the match ends the loop body) -> `return`'))
+        self.attrs = it.attrs
+        owner = selector.rsplit('::', 1)[0] if '::' in selector else ''
+        self.name = (owner.split(' for ')[-1].strip() + '::' if owner else '') + name
+
+
+class StmtText:
+    """R34 statement-to-function (added for unit `access_sites`; generalisation of R11, directive
+        @@extract stmt <file> <Type::fn> "<leading tokens>" as=<name> params="<param list>" [ret="<type>" cont="<expr>"]
+    ): ONE statement of a (long / generic) function, located by its leading token sequence, is cut into
+    the generated function `fn <name>(<params>) [-> <ret>] { <statement verbatim> [<cont>] }`; the object has
+    the interface of FnText/ArmText.  A `return EXPR;` (or `?`) inside the statement returns from the
+    generated function; the statement's NORMAL completion is modelled as returning `cont=` (over-
+    approximation of "the enclosing function goes on": what it does afterwards is not in the unit); for a
+    `let PAT = ..;` statement cont may mention the bindings of PAT.
+    Checked (else UNDECIDED):
+      * exactly one occurrence of the token sequence STARTS a statement that is a direct child of the
+        function body (an occurrence after `=`, inside a nested block, .. does not count); attributes in
+        front of it are evaluated (R7): a statement that is cfg'd out in this build is a lost anchor;
+      * the inputs of the generated function are the names the statement uses that are bound OUTSIDE it —
+        parameters of the enclosing function and `let`s of the function body before it (+ self): each must
+        be a parameter in params=, and every parameter in params= must be such an outside name (it may be
+        one the statement does not use at present); a parameter of the enclosing function (and a
+        `let` with a type annotation) must be repeated token-identically (`mut` apart); for a `let` without
+        annotation the type is the unit author's (recorded in the rewrite note; Verus type-checks the
+        statement against it); none of them may be declared `mut` (an effect on it would escape);
+      * no `break` / `continue` / label that leaves the statement.
+    If ret= is not token-identical to the enclosing function's return type this is recorded too (then a
+    `return` of a value that fits only the real type is a front-end error, i.e. UNDECIDED)."""
+
+    BLOCK_KW = ('if', 'match', 'while', 'for', 'loop', 'unsafe')
+
+    def __init__(self, repo, rel, selector, lead, name, params, security=False, impl_re=None, nth=None,
+                 ret=None, cont=None):
+        self.rel, self.selector = rel, selector
+        src = load_src(repo, rel)
+        it = find_fn(src, selector, security, impl_re, nth)
+        if it.open_si is None:
+            raise Undecided('unsupported-construct', 'fn %s has no body' % selector)
+        fob, fcb = it.open_si, src.match[it.open_si]
+        ltoks = norm_tokens(lead)
+        if not ltoks:
+            raise Undecided('unsupported-construct', 'R34: empty leading token sequence')
+        # ---- statements that are direct children of the function body: (attr_start, start, end_exclusive)
+        stmts = []
+        i = fob + 1
+        while i < fcb:
+            a0 = i
+            attrs = []
+            while src.s(i) == '#' and src.s(i + 1) == '[':
+                e = src.match[i + 1]
+                attrs.append(src.text[src.t(i).pos:src.t(e).end])
+                i = e + 1
+            s0 = i
+            if s0 >= fcb:
+                break
+            kw = src.s(s0)
+            j = s0
+            if kw in self.BLOCK_KW or kw == '{':
+                # block-like expression statement: ends with its (else-chained) block, optional ';'
+                while True:
+                    ob_ = j if src.s(j) == '{' else rscan.find_block_open(src, j + 1)
+                    if ob_ is None or ob_ >= fcb:
+                        raise Undecided('unsupported-construct', 'R34: cannot delimit the statements of %s' % selector)
+                    j = src.match[ob_] + 1
+                    if src.s(j) == 'else':
+                        j += 1
+                        continue
+                    if src.s(j) == '{' and kw in ('if', 'while', 'match') and src.s(ob_ - 1) == '=':
+                        continue    # `if let P = { block } { .. }`: that was the scrutinee
+                    break
+                if src.s(j) in ('.', '?'):
+                    # `if .. {} .method()` / `match .. {}?` : an expression that goes on; take it up to ';'
+                    while j < fcb and src.s(j) != ';':
+                        if src.s(j) in rscan.OPEN: j = src.match[j]
+                        j += 1
+                    j += 1
+                elif src.s(j) == ';':
+                    j += 1
+            else:
+                while j < fcb and src.s(j) != ';':
+                    if src.s(j) in rscan.OPEN: j = src.match[j]
+                    j += 1
+                j += 1      # past ';' (or past the tail expression: j == fcb + 1 is clipped below)
+            j = min(j, fcb)
+            stmts.append((a0, attrs, s0, j))
+            i = j
+        hits = [st for st in stmts if [src.s(st[2] + k) for k in range(len(ltoks))] == ltoks and st[2] + len(ltoks) <= st[3]]
+        if len(hits) != 1:
+            raise Undecided('lost-anchor', 'R34: %d statements of the body of %s start with %r (need exactly 1)' % (len(hits), selector, lead))
+        a0, attrs, s0, s_end = hits[0]
+        if not cfg_ok(attrs, security):
+            raise Undecided('lost-anchor', 'R34: the statement %r of %s is cfg\'d out in this build' % (lead, selector))
+        for at in attrs:
+            if not re.sub(r'\s+', '', at).startswith(('#[cfg(', '#[allow(')):
+                raise Undecided('unsupported-construct', 'R34: attribute %s on the statement' % at)
+        a, b = src.t(s0).pos, src.t(s_end - 1).end
+        # ---- no control flow that leaves the statement other than return / ?
+        inner_loops = loops_in(src, s0, s_end)
+        for q in range(s0, s_end):
+            if src.t(q).kind == 'ident' and src.s(q) in ('break', 'continue'):
+                if not any(lp[2] < q < lp[3] for lp in inner_loops):
+                    raise Undecided('unsupported-construct', 'R34: `%s` leaves the statement %r of %s' % (src.s(q), lead, selector))
+            if src.t(q).kind == 'lifetime' and src.s(q + 1) != ':' and src.s(q - 1) in ('break', 'continue'):
+                raise Undecided('unsupported-construct', 'R34: labelled break/continue in the statement %r of %s' % (lead, selector))
+        # ---- names bound outside the statement: parameters of the enclosing fn, top-level lets before it
+        fn_si = next(q for q in range(it.start_si, it.open_si) if src.s(q) == 'fn')
+        po = fn_si + 2
+        if src.s(po) == '<':
+            po = src.skip_generics(po)
+        if src.s(po) != '(':
+            raise Undecided('unsupported-construct', 'R34: cannot find the parameter list of %s' % selector)
+        pc = src.match[po]
+
+        def split_params(ps, lo, hi):
+            out_, cur_ = [], []
+            q = lo
+            while q < hi:
+                s_ = ps.s(q)
+                if s_ == '#' and ps.s(q + 1) == '[':
+                    q = ps.match[q + 1] + 1; continue
+                if s_ in rscan.OPEN:
+                    cur_.extend(ps.s(x) for x in range(q, ps.match[q] + 1)); q = ps.match[q] + 1; continue
+                if s_ == ',':
+                    out_.append(cur_); cur_ = []
+                else:
+                    cur_.append(s_)
+                q += 1
+            if cur_: out_.append(cur_)
+            return out_
+
+        def pname_of(p_):
+            p2 = [x for x in p_ if x not in ('&', 'mut') and not x.startswith("'")]
+            return p2[0] if p2 else None
+
+        outer = {}      # name -> ('param'|'let', declaration tokens without `mut` or None, is_mut)
+        for p_ in split_params(src, po + 1, pc):
+            nm = pname_of(p_)
+            if nm is None: continue
+            if nm == 'self':
+                outer['self'] = ('param', p_, False)
+            else:
+                colon = p_.index(':') if ':' in p_ else None
+                if colon is None or [x for x in p_[:colon] if x != 'mut'] != [nm]:
+                    raise Undecided('unsupported-construct', 'R34: pattern parameter in %s' % selector)
+                outer[nm] = ('param', [x for x in p_ if x != 'mut'], 'mut' in p_[:colon])
+        for (_, at2, t0, t1) in stmts:
+            if t0 >= s0:
+                break
+            if src.s(t0) != 'let' or not cfg_ok(at2, security):
+                continue
+            e = t0 + 1
+            dd = 0
+            colon = None
+            while e < t1 and not (dd == 0 and src.s(e) in ('=', ';')):
+                if src.s(e) in rscan.OPEN: dd += 1
+                elif src.s(e) in rscan.CLOSE: dd -= 1
+                elif dd == 0 and src.s(e) == ':' and colon is None: colon = e
+                e += 1
+            pat_end = colon if colon is not None else e
+            bs = _binders(src, t0 + 1, pat_end)
+            is_mut = any(src.s(q) == 'mut' for q in range(t0 + 1, pat_end))
+            for bn in bs:
+                decl = None
+                if colon is not None and len(bs) == 1 and [src.s(q) for q in range(t0 + 1, colon) if src.s(q) != 'mut'] == [bn]:
+                    decl = [bn, ':'] + [src.s(q) for q in range(colon + 1, e)]
+                outer[bn] = ('let', decl, is_mut)     # a later `let` shadows an earlier binding / a parameter
+        # ---- names the statement uses
+        used = []
+        for q in range(s0, s_end):
+            t = src.t(q)
+            if t.kind != 'ident' or t.s not in outer:
+                continue
+            if src.s(q - 1) in ('.', '::') or src.s(q + 1) == '::':
+                continue
+            if src.s(q + 1) == ':' and src.s(q - 1) in ('{', ','):
+                continue        # field name of a struct literal / pattern
+            if t.s not in used:
+                used.append(t.s)
+        psrc = Src(params)
+        gen = {}
+        for p_ in split_params(psrc, 0, psrc.n()):
+            nm = pname_of(p_)
+            if nm is not None:
+                gen[nm] = p_
+        for nm in used:
+            if nm not in gen:
+                raise Undecided('unsupported-construct', 'R34: the statement %r of %s uses `%s`, bound outside it: must be a parameter of %s'
+                                % (lead, selector, nm, name))
+        notes = []
+        for nm, p_ in gen.items():
+            if nm not in outer:
+                raise Undecided('unsupported-construct', 'R34: parameter %s of %s is not a name bound outside the statement in %s' % (nm, name, selector))
+            # (a parameter the statement does not use is allowed: one more universally quantified input -
+            #  so that a changed statement that reads another local of the function is still checked)
+            kind_, decl, is_mut = outer[nm]
+            if is_mut:
+                raise Undecided('unsupported-construct', 'R34: `%s` is declared mut in %s (an effect of the statement on it would escape)' % (nm, selector))
+            if decl is not None:
+                if [x for x in p_ if x != 'mut'] != [x for x in decl if x != 'mut']:
+                    raise Undecided('unsupported-construct', 'R34: params= must repeat the declaration `%s` of %s' % (' '.join(decl), selector))
+            else:
+                notes.append('%s' % ' '.join(p_))
+        self.pnames = list(gen.keys())
+        # ---- the generated function
+        hdr = 'fn %s(%s) ' % (name, ' '.join(params.split()))
+        if ret is not None:
+            hdr = 'fn %s(%s) -> %s ' % (name, ' '.join(params.split()), ' '.join(ret.split()))
+            enc_ret = []
+            if src.s(pc + 1) == '->':
+                q = pc + 2
+                while q < fob and src.s(q) != 'where':
+                    enc_ret.append(src.s(q)); q += 1
+            if norm_tokens(ret) != enc_ret:
+                notes.append('return type %s stands for %s' % (' '.join(ret.split()), ' '.join(enc_ret) or '()'))
+        if (ret is None) != (cont is None):
+            raise Undecided('unsupported-construct', 'R34: ret= and cont= go together')
+        self.orig = hdr + '{ ' + src.text[a:b] + ((' ' + ' '.join(cont.split())) if cont is not None else '') + ' }'
+        self.first_line = src.line_of(a)
+        self.last_line = src.line_of(b)
+        self.arm_first_line = self.first_line
+        self.sha = hashlib.sha256(src.text[a:b].encode()).hexdigest()
+        self.fired = [('R34', self.first_line, 'statement `%s ..` of %s cut into `%s`; normal completion = `%s`%s'
+                       % (' '.join(ltoks), selector, hdr.strip(), cont if cont is not None else '()',
+                          ('; given by the unit, not checked against the source: ' + '; '.join(notes)) if notes else ''))]
         self.attrs = it.attrs
         owner = selector.rsplit('::', 1)[0] if '::' in selector else ''
         self.name = (owner.split(' for ')[-1].strip() + '::' if owner else '') + name
@@ -1388,8 +1674,13 @@ def rw_arm_call(text, arg, fired, ft, security):
         raise Undecided('unsupported-construct', 'R30: arm %r of %s: body is not a block' % (pattern, ft.name))
     cb = src.match[ob]
     has_return = False
+    # R11c: a `continue` at arm level of the match that ends the loop body is "this arm is finished" —
+    # `return` in the generated function, after whose call the dispatch falls out of the arm: the same
+    r11c = arm_level_tail_continues(src, fob, fcb, hit[0], ob, cb, 'arm %r of %s' % (pattern, ft.name))
     for q in range(ob + 1, cb):
         s = src.s(q)
+        if q in r11c:
+            continue
         if s in ('break', 'continue', '?', 'await', 'yield'):
             raise Undecided('unsupported-construct', 'R30: `%s` inside arm %r of %s' % (s, pattern, ft.name))
         if s == 'return':
@@ -2695,7 +2986,7 @@ def build_unit(verif_root, repo, unit, security=None, force_degrade=None):
             if st.startswith('@@extract '):
                 pos, kv = parse_kv(st[len('@@extract '):])
                 kind = pos[0]
-                if kind in ('fn', 'arm'):
+                if kind in ('fn', 'arm', 'stmt'):
                     rel, sel = pos[1], pos[2]
                     if kind == 'fn' and len(pos) > 3:
                         sel = ' '.join(pos[2:])
@@ -2718,6 +3009,29 @@ def build_unit(verif_root, repo, unit, security=None, force_degrade=None):
                         raise Undecided('unsupported-construct', '%s: @@extract fn without @@end' % relpath)
                     i += 1
                     sec = unit_security[0] if 'cfg' not in kv else (kv['cfg'] == 'security')
+                    if kind == 'stmt':
+                        # R34 (unit access_sites): @@extract stmt <file> <Type::fn> "<leading tokens>" as=<name> params="<param list>" [ret= cont=]
+                        if len(pos) != 4 or 'as' not in kv or 'params' not in kv:
+                            raise Undecided('unsupported-construct', '%s: @@extract stmt needs <file> <fn> "<leading tokens>" as= params=' % relpath)
+                        ft = StmtText(repo, rel, sel, pos[3], kv['as'], kv['params'], sec, kv.get('impl'),
+                                      int(kv['nth']) if 'nth' in kv else None, ret=kv.get('ret'), cont=kv.get('cont'))
+                        try:
+                            if ft.name in force_degrade:
+                                raise Undecided('unsupported-construct', force_degrade[ft.name])
+                            lines = splice_function(ft, ds, sec)
+                        except Undecided as e_fn:
+                            if os.environ.get('VERIF_NO_DEGRADE'):
+                                raise
+                            try:
+                                lines = degrade_function(ft, ds, sec)
+                            except (Undecided, StopIteration, KeyError, IndexError):
+                                raise e_fn
+                            degraded[ft.name] = '%s: %s' % (e_fn.reason, e_fn.detail)
+                        out_lines.extend(lines)
+                        record.append({'item': 'fn ' + ft.name, 'file': rel, 'lines': [ft.first_line, ft.last_line],
+                                       'sha256': ft.sha, 'rewrites': [list(f) for f in ft.fired], 'stmt_of': sel,
+                                       'labels': sorted({o['label'] for _, o in lines if o.get('o') == 'clause' and 'label' in o})})
+                        continue
                     if kind == 'arm':
                         # R11: @@extract arm <file> <Type::fn> "<arm pattern tokens>" as=<name> params="<param list>"
                         if len(pos) != 4 or 'as' not in kv or 'params' not in kv:
